@@ -1257,8 +1257,10 @@ def _nf_record_fields(fi, node):
                 v = A.arg_or_kw(c, pos, name) if pos is not None else A.kwarg(c, name)
                 if isinstance(v, ast.Name) and st.get(v.id) == 1:
                     sub[f] = v.id
+                elif v is not None and not isinstance(v, (ast.Name, ast.Constant)):
+                    sub[f] = v      # computed in place: bound to a local of its own first (below)
             if sub:
-                cands[s_.targets[0].id] = (s_, sub)
+                cands[s_.targets[0].id] = (s_, sub, blk)
     if not cands:
         return False
     # not under a loop (the argument name could be rebound between the construction and a read of the field), not
@@ -1268,7 +1270,7 @@ def _nf_record_fields(fi, node):
         for ch in ast.iter_child_nodes(n):
             parents[id(ch)] = n
     for obj in list(cands):
-        s_, sub = cands[obj]
+        s_, sub, _blk = cands[obj]
         x = s_
         while id(x) in parents and x is not node:
             x = parents[id(x)]
@@ -1280,6 +1282,42 @@ def _nf_record_fields(fi, node):
             cands[n.value.id][1].pop(n.attr, None)
         if isinstance(n, ast.Call) and isinstance(n.func, ast.Name) and n.func.id in ("setattr", "delattr") and n.args and isinstance(n.args[0], ast.Name):
             cands.pop(n.args[0].id, None)
+
+    # `obj = C(a, make())`: the arguments that are computed in place are bound to locals first, in the order they are
+    # evaluated in (`frame__r1 = make(); obj = C(a, frame__r1)`), so that the field has a name to stand for
+    taken = set(st) | {n.id for n in ast.walk(node) if isinstance(n, ast.Name)}
+    for obj, (s_, sub, blk) in cands.items():
+        if not any(isinstance(v, ast.AST) for v in sub.values()):
+            continue
+        c = s_.value
+        by_id = {id(v): f for f, v in sub.items() if isinstance(v, ast.AST)}
+        pre = []
+        slots = [(c.args, i) for i in range(len(c.args))] + [(k, None) for k in c.keywords]
+        for (holder, i) in slots:
+            v = holder[i] if i is not None else holder.value
+            if isinstance(v, (ast.Name, ast.Constant)):
+                continue
+            k = 1
+            base = by_id.get(id(v), "arg")
+            while "%s__r%d" % (base, k) in taken:
+                k += 1
+            tmp = "%s__r%d" % (base, k)
+            taken.add(tmp)
+            pre.append(ast.copy_location(ast.Assign(targets=[ast.Name(id=tmp, ctx=ast.Store())], value=v), s_))
+            ref = ast.copy_location(ast.Name(id=tmp, ctx=ast.Load()), v)
+            if i is not None:
+                holder[i] = ref
+            else:
+                holder.value = ref
+            if id(v) in by_id:
+                sub[by_id[id(v)]] = tmp
+        at = [j for j, x in enumerate(blk) if x is s_]
+        if at:
+            blk[at[0]:at[0]] = pre
+            ast.fix_missing_locations(node)
+        else:
+            for f in [f for f, v in sub.items() if isinstance(v, ast.AST)]:
+                sub.pop(f)
 
     class T(ast.NodeTransformer):
         changed = False
